@@ -196,9 +196,9 @@ theorem level_main_step (X : SchemaX) (o : VOpts) (hop : o.operational = false) 
     (hq : X.q.implicitInnerCase = false) (hl : KidsLookupOk X) (hio : InfoOk X) (hs : FullSane X o) (fuel : Nat)
     (ih : ∀ f, f < fuel → PipeSound X o f) : PipeSound X o fuel := by
   intro sk ks cx1 cx2 cx3 cxF hfuel hb hls hcx1 hcxF hg hlen e he
-  have F := level_facts X o hop hq fuel cx1 cx2 cx3 sk ks hls hg hlen
-  have hfr : isFreshL ks = true := goodL_fresh X sk ks hg
   have hio' : ∀ k, BelowL k sk → X.base.get? k.sid = some k.info := fun k hk => hio k (hb k hk)
+  have F := level_facts X o hop hq fuel cx1 cx2 cx3 sk ks hls hg hlen hio'
+  have hfr : isFreshL ks = true := goodL_fresh X sk ks hg
   have hall := (goodL_all X sk ks).1 hg
   have hpl : ∀ n ∈ ks, n.sid ∈ dataSidsL sk := fun n hn => (hall n hn).1
   have helem := elem_sound X o hl hio hs fuel ih sk ks hfuel hb hls hg
@@ -241,7 +241,7 @@ theorem level_main_step (X : SchemaX) (o : VOpts) (hop : o.operational = false) 
         rw [hns, ← hc] at this
         cases this
     · rw [hcxF] at he
-      rcases level_sound X o cxF hop F.cnt fuel sk hfuel hls.kinds hls.nodup hls.sane F.sel e he with
+      rcases level_sound X o cxF hop F.cnt fuel sk hfuel hls.kinds hls.nodup hls.sane F.sel hio' e he with
         h | ⟨hkd, k, hr, hkind, hst, hne⟩
       · exact card_sub_spec X o _ sk _ h
       · -- `lyd_validate_unique` on a visited list: the `unique` clause of the specification is violated
